@@ -25,9 +25,9 @@ Proof.
     apply lex_string; [reflexivity|]. cbn [forallb app]. rewrite forallb_app. cbn [forallb].
     rewrite (no_quote_no 39%N s (or_introl eq_refl) Hnq). reflexivity.
   - exists s.
-    replace (([34%N] ++ s ++ [34%N]) ++ rest) with (34%N :: s ++ 34%N :: rest)
+    replace (([39%N] ++ s ++ [39%N]) ++ rest) with (39%N :: s ++ 39%N :: rest)
       by (cbn [app]; rewrite <- !app_assoc; reflexivity).
-    apply lex_string; [reflexivity|]. apply no_quote_no; [right; reflexivity | exact Hnq].
+    apply lex_string; [reflexivity|]. apply no_quote_no; [left; reflexivity | exact Hnq].
 Qed.
 
 Lemma first_token : forall n t, tsize t <= n -> doc_type t = true ->
